@@ -2,6 +2,7 @@ import FinamModel.Connect
 import FinamModel.Translated.connect_status
 import FinamModel.Translated.connect_flags
 import FinamModel.Translated.ConnectHelper__push_data
+import FinamModel.Translated.connect_components
 /-
   The status a `ConnectHelper.connect` call reports and what `Composition._connect_components` makes of it — both
   translated (as slices) from `finam/tools/connect_helper.py` and `finam/schedule.py` on every run.  C06: "a component
@@ -109,5 +110,148 @@ theorem code_initial_data_at_start (pushed : List (Nat × Bool)) (name : Nat) (s
     | cons q pushed ih =>
       obtain ⟨k, v⟩ := q
       by_cases hk : k = name <;> simp [Py.dictSet, Py.dictGet?, hk, ih]
+
+/-! ### the whole `Composition._connect_components` loop, on the regenerated definition
+
+`comp.connect(time)` is a parameter `cc` (what it does to the world and to the table of statuses).  The only thing assumed of
+it is the frame condition `OwnStatus`: a component's `connect` changes no other component's status. -/
+
+abbrev StatusTab := List (Nat × Int)
+
+/-- `comp.connect` changes the status of `comp` only -/
+def OwnStatus {φ} (cc : φ → StatusTab → Nat → Except Err (StatusTab × φ)) : Prop :=
+  ∀ w st c st' w', cc w st c = .ok (st', w') → ∀ c', c' ≠ c → Py.dictGet? st' c' = Py.dictGet? st c'
+
+def connected (st : StatusTab) (c : Nat) : Prop := (Py.dictGet? st c).getD (-1) = 0
+
+/-- one pass of the `for comp in self._components` loop: when it ends without `any_unconnected`, every component visited in
+    it is CONNECTED at the end of the pass, and so is every component that was CONNECTED before and... stays so -/
+theorem pass_all_connected {φ} (cc : φ → StatusTab → Nat → Except Err (StatusTab × φ)) (hcc : OwnStatus cc)
+    (full : List Nat) (fuelN : Nat) : ∀ (cs : List Nat) (st : StatusTab) (w : φ) (anew : Bool) (st' : StatusTab) (w' : φ) (anew' : Bool)
+      (pre : List Nat), (∀ c ∈ pre, connected st c) →
+      Tr.connect_components.loop2 full st w fuelN false anew cc cs = .ok (st', w', false, anew') →
+      ∀ c, (c ∈ pre ∨ c ∈ cs) → connected st' c := by
+  intro cs
+  induction cs with
+  | nil =>
+    intro st w anew st' w' anew' pre hpre h c hc
+    simp [Tr.connect_components.loop2, pure, Except.pure] at h
+    obtain ⟨rfl, _, _⟩ := h
+    cases hc with
+    | inl hp => exact hpre c hp
+    | inr hn => cases hn
+  | cons c0 cs ih =>
+    intro st w anew st' w' anew' pre hpre h c hc
+    unfold Tr.connect_components.loop2 at h
+    by_cases h0 : (Py.dictGet? st c0).getD (-1) = 0
+    · -- already connected: skipped
+      simp only [h0, ne_eq, not_true_eq_false, if_false] at h
+      have := ih st w anew st' w' anew' (c0 :: pre) (by
+        intro x hx; cases hx with
+        | head => exact h0
+        | tail _ hx => exact hpre x hx) h c (by
+          cases hc with
+          | inl hp => exact Or.inl (List.mem_cons_of_mem _ hp)
+          | inr hn => cases hn with
+            | head => exact Or.inl (List.mem_cons_self)
+            | tail _ hn => exact Or.inr hn)
+      exact this
+    · simp only [ne_eq, h0, not_false_eq_true, if_true] at h
+      cases hcall : cc w st c0 with
+      | error e => simp [hcall, bind, Except.bind] at h
+      | ok r =>
+        obtain ⟨st1, w1⟩ := r
+        simp only [hcall, ok_bind] at h
+        have hframe := hcc w st c0 st1 w1 hcall
+        by_cases h1 : (Py.dictGet? st1 c0).getD (-1) = 0
+        · simp only [h1, if_true] at h
+          have hpre1 : ∀ x ∈ c0 :: pre, connected st1 x := by
+            intro x hx
+            cases hx with
+            | head => exact h1
+            | tail _ hx =>
+              by_cases hxc : x = c0
+              · subst hxc; exact h1
+              · unfold connected; rw [hframe x hxc]; exact hpre x hx
+          exact ih st1 w1 true st' w' anew' (c0 :: pre) hpre1 h c (by
+            cases hc with
+            | inl hp => exact Or.inl (List.mem_cons_of_mem _ hp)
+            | inr hn => cases hn with
+              | head => exact Or.inl (List.mem_cons_self)
+              | tail _ hn => exact Or.inr hn)
+        · -- the component is still unconnected: the pass ends with `any_unconnected`, contradiction
+          simp only [h1, if_false] at h
+          exfalso
+          have key : ∀ (cs : List Nat) (st : StatusTab) (w : φ) (anew : Bool) (r : StatusTab × φ × Bool × Bool),
+              Tr.connect_components.loop2 full st w fuelN true anew cc cs = .ok r → r.2.2.1 = true := by
+            intro cs
+            induction cs with
+            | nil => intro st w anew r hr; simp [Tr.connect_components.loop2, pure, Except.pure] at hr; rw [← hr]
+            | cons d ds ihd =>
+              intro st w anew r hr
+              unfold Tr.connect_components.loop2 at hr
+              by_cases hd : (Py.dictGet? st d).getD (-1) = 0
+              · simp only [hd, ne_eq, not_true_eq_false, if_false] at hr; exact ihd _ _ _ _ hr
+              · simp only [ne_eq, hd, not_false_eq_true, if_true] at hr
+                cases hcd : cc w st d with
+                | error e => simp [hcd, bind, Except.bind] at hr
+                | ok q =>
+                  obtain ⟨s2, w2⟩ := q
+                  simp only [hcd, ok_bind] at hr
+                  by_cases e0 : (Py.dictGet? s2 d).getD (-1) = 0
+                  · simp only [e0, if_true] at hr; exact ihd _ _ _ _ hr
+                  · simp only [e0, if_false] at hr
+                    by_cases e1 : (Py.dictGet? s2 d).getD (-1) = 1
+                    · simp only [e1, if_true] at hr; exact ihd _ _ _ _ hr
+                    · simp only [e1, if_false] at hr; exact ihd _ _ _ _ hr
+          by_cases h2 : (Py.dictGet? st1 c0).getD (-1) = 1
+          · simp only [h2, if_true] at h
+            have := key cs st1 w1 true _ h
+            simp at this
+          · simp only [h2, if_false] at h
+            have := key cs st1 w1 anew _ h
+            simp at this
+
+/-- **connect() ends with every component connected, on the code**: whenever the translated `_connect_components` returns
+    normally — whatever the components' `connect` methods do to the world, as long as each changes its own status only — every
+    listed component is CONNECTED -/
+theorem code_connect_ok_all_connected {φ} (cc : φ → StatusTab → Nat → Except Err (StatusTab × φ)) (hcc : OwnStatus cc)
+    (comps : List Nat) (st : StatusTab) (w : φ) (fuel : Nat) (st' : StatusTab) (w' : φ)
+    (h : Tr.connect_components comps st w cc fuel = .ok (st', w')) : ∀ c ∈ comps, connected st' c := by
+  unfold Tr.connect_components at h
+  have loopw : ∀ (n : Nat) (st : StatusTab) (w : φ) (k : Int) (r : StatusTab × φ × Int),
+      Tr.connect_components.while1 comps st w fuel k cc n = .ok r → ∀ c ∈ comps, connected r.1 c := by
+    intro n
+    induction n with
+    | zero => intro st w k r hr; simp [Tr.connect_components.while1, throw, throwThe, MonadExceptOf.throw] at hr
+    | succ n ihn =>
+      intro st w k r hr
+      unfold Tr.connect_components.while1 at hr
+      simp only [if_true] at hr
+      cases hp : Tr.connect_components.loop2 comps st w fuel false false cc comps with
+      | error e => simp [hp, bind, Except.bind] at hr
+      | ok q =>
+        obtain ⟨s1, w1, au, an⟩ := q
+        simp only [hp, ok_bind] at hr
+        cases au with
+        | false =>
+          simp [pure, Except.pure] at hr
+          rw [← hr]
+          intro c hc
+          exact pass_all_connected cc hcc comps fuel comps st w false s1 w1 an [] (by intro x hx; cases hx) hp c (Or.inr hc)
+        | true =>
+          simp only [not_true_eq_false, if_false] at hr
+          cases an with
+          | false => simp [throw, throwThe, MonadExceptOf.throw] at hr
+          | true =>
+            simp only [not_true_eq_false, if_false] at hr
+            exact ihn _ _ _ _ hr
+  cases hw : Tr.connect_components.while1 comps st w fuel 0 cc fuel with
+  | error e => simp [hw, bind, Except.bind] at h
+  | ok r =>
+    obtain ⟨s1, w1, k⟩ := r
+    simp [hw, bind, Except.bind, pure, Except.pure] at h
+    obtain ⟨rfl, _⟩ := h
+    exact loopw fuel st w 0 _ hw
 
 end Finam.Props.C06
